@@ -47,6 +47,29 @@ import (
 //	          "any" domain, used by the type-isomorphism check (IsoCheck).
 type A = any
 
+// W is a wide comparable element type (80 bytes): the third member of the
+// isomorphism family ("wide"), for code that looks at the SIZE of the element type.
+type W struct {
+	ID  int
+	Pad [9]int
+}
+
+var wType = reflect.TypeOf(W{})
+
+func welem(x int) W { return W{ID: mod(x, isoN)} }
+
+var (
+	natW = func(a, b W) int { return cmp.Compare(a.ID, b.ID) }
+	revW = func(a, b W) int { return cmp.Compare(b.ID, a.ID) }
+)
+
+func cmpW(id string) func(a, b W) int {
+	if id == dom.Rev || id == "revmag" {
+		return revW
+	}
+	return natW
+}
+
 type U uint8
 
 var (
@@ -65,7 +88,13 @@ var (
 )
 
 // anyElems[0] is the zero value of `any`, as E(0) is the zero value of E.
-var anyElems = []any{nil, 1, "a", ptrA, ptrB, errA, 2.5, true, anyStruct{1}, "", 7, 0, "nil"}
+// anyStringer's String method dereferences its receiver: fmt prints a nil *anyStringer as
+// "<nil>" (it recovers the nil-receiver panic); code that calls String() itself does not.
+type anyStringer struct{ name string }
+
+func (s *anyStringer) String() string { return "stringer:" + s.name }
+
+var anyElems = []any{nil, 1, "a", ptrA, ptrB, errA, 2.5, true, anyStruct{1}, "", 7, 0, (*anyStringer)(nil)}
 
 const isoN = 13
 
